@@ -118,6 +118,8 @@ let dispatch op args = match op, args with
        | Refused -> L [N; vzl (rle_bin_spec (zi c) (zl a) (zl b))]
        | Ok (ev, vs) -> L [L [vzl ev; vzl vs; vzl (rle_decode (ev, vs))]; vzl (rle_bin_spec (zi c) (zl a) (zl b))])
   | "rle_concat", [ls] -> let (ev, vs) = rle_concat_Z (zll ls) in L [L [vzl ev; vzl vs; vzl (rle_decode (ev, vs))]; vzl (List.concat (zll ls))]
+  | "rle_windows", [a; ss; es] -> let r = L (List.map vzl (rle_windows_Z (zl a) (zl ss) (zl es))) in L [r; N]
+  | "rle_rlmask", [a; m] -> L [vzl (rle_rlmask_Z (zl a) (bl m)); N]
   | "rle_sum", [a] -> L [vz (rle_sum_Z (zl a)); vz (List.fold_left Z.add Z0 (zl a))]
   | "ufunc", [c; x; y] ->
       let y' = (match y with L [I Z0; v] -> OScalar (zi v) | L [I (Zpos XH); l] -> OCol (zl l) | L [I (Zpos (XO XH)); r] -> ORagged (fr (zll r)) | _ -> failwith "operand") in
